@@ -88,8 +88,13 @@ def assignment_family(first_id, per_prog=12):
                    b.add(ty="log", a=b.add(ty="lassignm", op=op, a=b.add(ty="var", name="r"), key=cs("0"), c=bump(100))),
                    b.add(ty="log", a=b.add(ty="var", name="r")),
                    b.add(ty="log", a=b.add(ty="lassignm", op=op, a=b.add(ty="var", name="o"), key=cs("zz"), c=bump(1000))),
+                   b.add(ty="log", a=b.add(ty="var", name="o")),          # a short-circuited assignment must not create the property
+                   b.add(ty="decl", kind="const", name="cx", a=cur()),
+                   # a constant target: TypeError only if the assignment really happens
+                   b.add(ty="try", a=b.add(ty="block", xs=[b.add(ty="log", a=b.add(ty="lassignv", op=op, name="cx", a=bump(10000)))]),
+                         b=b.add(ty="block", xs=[b.add(ty="log", a=b.add(ty="var", name="e"))]), cname="e", c=0),
                    b.add(ty="log", a=b.add(ty="var", name="n"))]
-            xs.append(b.add(ty="block", xs=blk)); ncases += 4
+            xs.append(b.add(ty="block", xs=blk)); ncases += 5
             if len(xs) >= per_prog: flush()
     flush()
     return progs, ncases
